@@ -34,6 +34,48 @@ func init() {
 	drv.Register("c11race", verifRaceCache)
 	drv.Register("c14race", verifRaceLogger)
 	drv.Register("c06race", verifRaceReceive)
+	drv.Register("c02race", verifRaceChunks)
+}
+
+// ---- target generation across the chunks of one scan: a port scan with more than 200 port ranges runs the
+// SAME request generator once per chunk, each run under its own context, on the SAME scan range (the
+// chunk configuration is a shallow copy). A run that was cancelled may still be winding down while the
+// next one starts: nothing they share may be written by both. ----
+func verifRaceChunks(c *drv.Ctx) {
+	c.R.Rule = "free-running under -race: the real ip x port request generator (one object, as the scan method holds it) is run for 6 consecutive chunks over 10.64.0.0/10 with 2 ports each; every chunk is cancelled after 3000 requests and the next starts at once; every request must be addressed inside the subnet and to a port of its chunk. Auxiliary (sampling); the address check decides on what it sees. non-trivial = chunk"
+	_, subnet, _ := net.ParseCIDR("10.64.0.0/10")
+	gen := scan.NewIPPortGenerator(scan.NewIPGenerator(), scan.NewPortGenerator())
+	base := &scan.Range{DstSubnet: subnet, SrcIP: net.IP{10, 0, 0, 5}, SrcMAC: net.HardwareAddr{2, 0, 0, 0, 0, 1}}
+	for chunk := 0; chunk < 6; chunk++ {
+		r := *base // as startPortScanEngine does: a copy of the configuration, the same subnet object
+		lo := uint16(1000 + 10*chunk)
+		r.Ports = []*scan.PortRange{{StartPort: lo, EndPort: lo + 1}}
+		ctx, cancel := context.WithCancel(context.Background())
+		reqs, err := gen.GenerateRequests(ctx, &r)
+		if err != nil {
+			c.Fail("chunks:generator-error", fmt.Sprintf("chunk %d: %v", chunk, err), nil)
+			cancel()
+			return
+		}
+		n := 0
+		for q := range reqs {
+			if q.Err != nil {
+				c.Fail("chunks:request-error", fmt.Sprintf("chunk %d request %d: %v", chunk, n, q.Err), nil)
+				break
+			}
+			if ip4 := q.DstIP.To4(); ip4 == nil || !subnet.Contains(ip4) || q.DstPort < lo || q.DstPort > lo+1 {
+				c.Fail("chunks:outside-target", fmt.Sprintf("chunk %d request %d is addressed to %v:%d, outside the target 10.64.0.0/10 ports %d-%d (the previous chunk's generator was cancelled a moment ago)", chunk, n, q.DstIP, q.DstPort, lo, lo+1), nil)
+				break
+			}
+			if n++; n == 3000 {
+				break
+			}
+		}
+		cancel()
+		c.Eval(n)
+		c.Nontrivial(1)
+	}
+	c.Sample(map[string]any{"chunks": 6, "requests_per_chunk": 3000, "subnet": "10.64.0.0/10"})
 }
 
 // ---- receive side: the real engine (SetupPacketEngine: sender + receiver(s) + scan method) reading a
